@@ -44,10 +44,13 @@ RULE = ('every parameter tuple of the stated boxes, every labelled graph / DAG /
         'instance is non-trivial when it has at least one variable and one clause; '
         'instances are distinct by construction (each enumerated once)')
 ASSUMPTIONS = [
-    'bounded scope: ordering N<=5 (6 thorough), graphs <=4 (5) vertices, DAGs <=5 (6) '
-    'vertices, stone DAGs <=3 (4) vertices x <=3 stones, all availability graphs up to '
-    '3x3, CPLS a<=3 (4), b,c in {1,2,4} (8), Pitfall on every d-regular graph with v<=6 '
-    '(7), Ramsey N<=6 (7), vdW N<=9 (16), PTN N<=22 by truth table',
+    'bounded scope (thorough in brackets): ordering N<=7 (8), all graphs <=5 vertices with all '
+    '24 flag combinations (+ all 6-vertex graphs with 7 flag combinations), all DAGs <=5 (6) '
+    'vertices, stone DAGs <=3 (4) vertices x <=3 stones, all availability graphs up to 3x3 '
+    '(4x2), CPLS a<=3 (4), b,c in {1,2,4} (8), Pitfall on every d-regular graph with v<=6 '
+    '(+ (7,2),(7,4),(8,1),(8,2),(8,3)), ny,nz in {2,3}, k in {2,4}, Ramsey N<=6 (7) x s,k<=5, vdW 2 colours N<=9 (19), '
+    '3 colours N<=6 (7), 4 colours N<=4 (5), PTN N<=22 by truth table and N<=60 (200) by '
+    'clause-set equality',
     'variable meaning is taken from the published names (all_variable_labels)',
     'reference axiom lists / colouring predicates in checks/c03 are the documented meaning; '
     'Pitfall axioms follow the inline documentation of pitfall.py (hard part = k copies of '
@@ -219,7 +222,8 @@ def is_connected(n, edges):
 
 REGULAR_COUNTS = {(2, 1): 1, (3, 2): 1, (4, 1): 3, (4, 2): 3, (4, 3): 1, (5, 2): 12,
                   (5, 4): 1, (6, 1): 15, (6, 2): 70, (6, 3): 70, (6, 4): 15, (6, 5): 1,
-                  (7, 2): 465, (7, 4): 465, (7, 6): 1, (8, 1): 105, (8, 2): 3507}
+                  (7, 2): 465, (7, 4): 465, (7, 6): 1, (8, 1): 105, (8, 2): 3507,
+                  (8, 3): 19355, (8, 4): 19355}
 
 
 @lru_cache(maxsize=None)
@@ -763,13 +767,14 @@ def check_case(case, R=None):
             bad('%saxioms:missing:%s' % (prefix, g),
                 '%d documented %s axiom(s) are not in the formula, e.g. %s' %
                 (len(missing[g]), g, show_clause(ex)))
+        # (tautological clauses say nothing: counted above, never reported)
         extra = [cl for cl in produced if cl not in ref and not is_tautology(cl)]
-        if extra or taut:
+        if extra:
             ok = False
-            ex = sorted(extra or taut, key=show_clause)[0]
+            ex = sorted(extra, key=show_clause)[0]
             bad('%saxioms:extra' % prefix,
                 '%d clause(s) of the formula are no documented axiom, e.g. %s' %
-                (len(extra) + len(taut), show_clause(ex)))
+                (len(extra), show_clause(ex)))
         if ok:
             stat('axiom_sets_equal')
         return ok
@@ -916,14 +921,12 @@ def check_case(case, R=None):
         size = len(alpha)
         lo = part * size
         got = bitmap()
-        exp_count = 0
-        got_slice = (got >> lo) & ((1 << size) - 1) if identity else None
-        exp = 0
         goodlist = [g for g in range(size) if alpha[g] < s and omega[g] < k]
         exp_count = len(goodlist)
         if identity:
+            # graph number == assignment number: compare this slice of the bitmap
             exp = tt.bitmap_from_assignments(goodlist)
-            gslice = got_slice
+            gslice = (got >> lo) & ((1 << size) - 1)
         else:
             if nparts != 1:
                 raise Uninterpretable('sliced Ramsey check needs variables in pair order')
@@ -1059,28 +1062,36 @@ def cases(tier, seed):
         cs.append(c)
 
     # ---- ordering principle
-    for N in range(0, 7 if th else 6):
+    for N in range(0, 9 if th else 8):
         for total, smart, plant, knuth in _flags():
-            if N == 6 and plant and not (total or smart):
-                continue            # 130023 partial orders: not needed twice
-            nv = comb(N, 2) if smart else N * (N - 1)
-            add('op', [N, total, smart, plant, knuth], cost=1 + (1 << max(0, nv - 12)) // 8)
+            if N >= 6 and plant and not (total or smart) and not knuth:
+                continue            # 130023 partial orders on 6 elements: stop at 5
+            if N >= 8 and plant and (total or smart):
+                continue            # 40320 total orders: stop at 7
+            add('op', [N, total, smart, plant, knuth], cost=2 if N < 6 else 20)
         add('op', [N, False, False, False, 1], cost=2)      # "anything else suppresses it"
-        add('op', [N, True, False, True, 5], cost=2)
+        if N < 7:
+            add('op', [N, True, False, True, 5], cost=2)
     add('op', [-1, False, False, False, 0], expect='ValueError', cls='negative-size')
     # ---- graph ordering principle: all graphs
-    for nv_ in range(0, 6 if th else 5):
+    for nv_ in range(0, 6):
         for es in scope.simple_graphs(nv_):
             for total, smart, plant, knuth in _flags():
                 add('gop', [nv_, [list(e) for e in es], total, smart, plant, knuth],
-                    cost=1 if nv_ < 5 else (3 if smart else 12))
-    if not th:      # a few 5-vertex graphs rotated by the seed
-        g5 = list(scope.simple_graphs(5))
-        for i in range(8):
-            es = g5[(seed * 97 + i * 131 + 17) % len(g5)]
-            for total, smart, plant, knuth in ((False, False, False, 2), (False, False, True, 0),
-                                               (False, True, False, 0), (True, False, True, 3)):
-                add('gop', [5, [list(e) for e in es], total, smart, plant, knuth], cost=12,
+                    cost=1 if nv_ < 5 else (1 if smart else 8))
+    g6 = list(scope.simple_graphs(6))
+    six = ((False, False, False, 0), (False, False, False, 2), (False, False, False, 3),
+           (True, False, False, 0), (False, True, False, 0), (False, True, True, 0),
+           (False, False, True, 2))
+    if th:
+        for es in g6:
+            for total, smart, plant, knuth in six:
+                add('gop', [6, [list(e) for e in es], total, smart, plant, knuth], cost=4)
+    else:           # a few 6-vertex graphs rotated by the seed
+        for i in range(24):
+            es = g6[(seed * 9973 + i * 1361 + 17) % len(g6)]
+            for total, smart, plant, knuth in six:
+                add('gop', [6, [list(e) for e in es], total, smart, plant, knuth], cost=4,
                     extra=True)
     # ---- pebbling: all DAGs
     for nv_ in range(0, 7 if th else 6):
@@ -1124,17 +1135,18 @@ def cases(tier, seed):
     vd = [(2, 1), (3, 2), (4, 1), (4, 2), (4, 3), (5, 2), (5, 4), (6, 1), (6, 2), (6, 3),
           (6, 4), (6, 5)]
     if th:
-        vd += [(7, 2), (7, 4), (7, 6), (8, 1)]
+        vd += [(7, 2), (7, 4), (8, 1), (8, 2), (8, 3)]
     for (v, d) in vd:
+        cyc = v * d // 2 - v + 1
         for es in regular_graphs(v, d):
             for ny in (2, 3):
                 for nz in (2, 3):
-                    ks = (2, 4) if (v <= 4 or th) else (2,)
+                    ks = (2, 4) if v <= 6 else (2,)
                     for k in ks:
-                        if (ny, nz) == (3, 3) and v >= 6 and not th and k == 4:
+                        if (v, d) in ((7, 4), (8, 3)) and (ny, nz, k) != (2, 2, 2):
                             continue
                         add('pitfall', [v, d, ny, nz, k], graph=[list(e) for e in es],
-                            cost=3 + v * d * k // 4)
+                            cost=3 + (1 << max(0, cyc)) // 3)
     add('pitfall', [4, 2, 4, 2, 2], graph=[list(e) for e in regular_graphs(4, 2)[0]], cost=3)
     add('pitfall', [4, 2, 2, 4, 2], graph=[list(e) for e in regular_graphs(4, 2)[1]], cost=3)
     add('pitfall', [5, 2, 5, 2, 2], graph=[list(e) for e in regular_graphs(5, 2)[3]], cost=3)
@@ -1231,9 +1243,18 @@ def shards(tier, seed):
 
 
 def run_cases(chunk, R):
+    perkey = {}
     for case in chunk:
         R.nt = False
         vs = check_case(case, R)
+        kept = []
+        for v in vs:        # a flood under one key must not crowd out other keys
+            perkey[v['key']] = perkey.get(v['key'], 0) + 1
+            if perkey[v['key']] <= 2:
+                kept.append(v)
+            else:
+                R.stats['further_violations_under_reported_keys'] += 1
+        vs = kept
         R.case(sample={'fam': case['fam'], 'args': case['args']} if R.evals % 211 == 0 else None,
                nontrivial=R.nt)
         R.outcomes['family:' + case['fam']] += 1
